@@ -20,7 +20,7 @@ ASSUMPTIONS = [
     "the parallel hashing path is reached by construction (two files larger than the threshold in one directory); its use is inferred from the inputs, not from an internal hook",
 ]
 MONITORS = "oid / bytes equality across permutations and configurations; independent canonical encoder; collision map"
-REQUIRED_COUNTERS = ["permutations_checked", "sets_exhaustively_permuted", "disk_builds", "parallel_path_builds", "shuffled_walk_builds",
+REQUIRED_COUNTERS = ["state_warmed_under_other_algorithm", "permutations_checked", "sets_exhaustively_permuted", "disk_builds", "parallel_path_builds", "shuffled_walk_builds",
                      "warm_state_builds", "prefix_objects_checked", "roundtrip_checks", "get_hashes_threshold_checks"]
 
 
@@ -133,6 +133,7 @@ def run_shard(ctx):
             d = ctx.fresh("b")
             big = rng.random() < 0.35
             files, _e = gen.tree(rng, depth=rng.randrange(0, 3), fanout=3, odd=0.3, dup=0.4, min_files=2)
+            files[("crlf.txt",)] = b"line one\r\nline two\r\n" * rng.randrange(1, 40)
             if big:
                 base = rng.choice(sorted({k[:-1] for k in files}))
                 for i in range(rng.choice([2, 3])):
@@ -153,6 +154,11 @@ def run_shard(ctx):
             for jobs in (1, 2, 8):
                 runs.append(("jobs=%d" % jobs, odb_nostate, env.localfs(), jobs))
             runs.append(("shuffled-walk", odb_nostate, sfs, rng.choice([1, 4])))
+            if rng.random() < 0.5:
+                # the same state first serves a store of the legacy text-normalising algorithm (rows under another algorithm name)
+                legacy = env.local_odb(os.path.join(d, "legacy"), state=state, hash_name="md5-dos2unix")
+                build(legacy, p, env.localfs(), "md5-dos2unix", dry_run=True)
+                res.count("state_warmed_under_other_algorithm")
             runs.append(("state-cold", odb, env.localfs(), 2))
             runs.append(("state-warm", odb, sfs, 2))
             objs = []
